@@ -1,3 +1,4 @@
+import PyseqmVerif.Properties.CensusState
 import PyseqmVerif.Model.History
 import Mathlib.Tactic.Common
 /-!
